@@ -923,11 +923,52 @@ def step (line impl : String) : String × Verdict :=
 
 end run
 
+/-- canonical form of a scale literal: `<i|f>:<mantissa>e<exp10>`, mantissa without trailing zeros
+(the macro-level harness prints the same form from `syn::Lit`) -/
+def canonLit (l : Lit) : String :=
+  let rec strip (fuel : Nat) (m : Nat) (e : Int) : Nat × Int :=
+    match fuel with
+    | 0 => (m, e)
+    | fuel + 1 => if m != 0 && m % 10 == 0 then strip fuel (m / 10) (e + 1) else (m, e)
+  let (m, e) := if l.digits == 0 then (0, (0 : Int)) else strip 400 l.digits (l.exp - l.nfrac)
+  s!"{if l.isFloat then "f" else "i"}:{m}e{e}"
+
+/-- the operator impls the macro generates for one definition, in the notation of the macro-level
+harness: `op lhs rhs [form:out,...]`, sorted -/
+def frontImpls (d : QtyDef) : List String :=
+  let n := Text.toString d.name
+  let td := TyDecl.ofDef d
+  let opS (o : BinOp) : String := match o with
+    | .add => "add" | .sub => "sub" | .mul => "mul" | .div => "div" | .eq => "eq" | .lt => "lt"
+  let base := (baseImpls td).map (fun i =>
+    s!"{opS i.op} {Text.toString i.lhs} {Text.toString i.rhs} [oo:{Text.toString i.out}]")
+  let der := (derivedImpls td).map (fun i =>
+    s!"{opS i.op} {Text.toString i.lhs} {Text.toString i.rhs} [oo:{Text.toString i.out},or:fwd,ro:fwd,rr:fwd]")
+  let extra := [s!"g:div {n} Rate<Self,PQ> [oo:PQ]", s!"g:mul {n} Rate<TQ,Self> [oo:TQ]",
+                s!"mul AmountT {n}Unit [oo:{n}]", s!"mul {n}Unit AmountT [oo:{n}]"]
+  (base ++ der ++ extra).toArray.qsort (· < ·) |>.toList
+
+def frontLine (d : QtyDef) : String :=
+  let o (x : Option Text) : String := match x with
+    | some t => Text.toString t | none => "-"
+  let oh (x : Option Text) : String := match x with
+    | some t => hexOfText t | none => "-"
+  let der := match d.derived with
+    | some dv => s!"{Text.toString dv.lhs}{if dv.isMul then "*" else "/"}{Text.toString dv.rhs}"
+    | none => "-"
+  let units := d.units.map (fun u =>
+    s!" | {Text.toString u.ident},{hexOfText u.name},{hexOfText u.symbol},{o u.pfx},{match u.scale with | some l => canonLit l | none => "-"},{oh u.doc}")
+  let consts := ",".intercalate (d.units.map (fun u => s!"{Text.toString u.constName}={Text.toString u.ident}"))
+  let variants := ",".intercalate (d.units.map (fun u => Text.toString u.ident))
+  s!"ok {Text.toString d.name} ref={o d.refIdent} derived={der}{String.join units} # {"; ".intercalate (frontImpls d)} # consts {consts} # variants {variants}"
+
+
 def runWith {A} (R : Arith A) (C : Codec A) (M : ErrModel) (AT : AmtText A) (AS : AmtSer A) (isF64 : Bool) (args : List String) : IO UInt32 := do
   let custom ← match args with
     | ["dumpf", f] => pure (some (parseItems (← IO.FS.lines f).toList))
     | ["runf", f, _, _] => pure (some (parseItems (← IO.FS.lines f).toList))
     | ["expandf", f] => pure (some (parseItems (← IO.FS.lines f).toList))
+    | ["frontf", f] => pure (some (parseItems (← IO.FS.lines f).toList))
     | ["typingf", f] => pure (some (parseItems (← IO.FS.lines f).toList))
     | _ => pure none
   let W := buildWorld R isF64 custom
@@ -945,6 +986,13 @@ def runWith {A} (R : Arith A) (C : Codec A) (M : ErrModel) (AT : AmtText A) (AS 
         match RTable.ofDef R d with
         | none => IO.println s!"err {Text.toString it.name} literal scale literal not representable in this back-end"
         | some _ => IO.println s!"ok {Text.toString it.name}"
+    return 0
+  | ["frontf", _] =>
+    -- what the macro front end (and the set of generated impls) looks like per definition
+    for it in custom.getD [] do
+      match MacroFront.expand it with
+      | .error _ => IO.println "rejected"
+      | .ok d => IO.println (frontLine d)
     return 0
   | ["typingf", _] =>
     let defs := (custom.getD []).filterMap (fun it => match MacroFront.expand it with
